@@ -84,6 +84,10 @@ type Case struct {
 	// (parser.AddAutoLoad, process-wide, reset by NewVM) that defines class Callbacks[k] (definition id 2000+k) on the VM
 	// of the context it is called with, and declines every other name (composer classmap / legacy autoloader)
 	Callbacks []string `json:"callbacks,omitempty"`
+	// PathShape: where the history's FILES live below a fresh temporary directory -- the files of routes parsefile /
+	// include / require_once and the class-path directory of namespace App: "", "vendor", "vendor/acme/lib/src", "src",
+	// "My.Dir/UPPER", "dots:vendor" (path spelled with a ../ segment) ...
+	PathShape string   `json:"pathshape,omitempty"`
 	Scripts   bool     `json:"scripts"` // the history contains script-level ops: load the PHP function library
 	Names     []string `json:"names"`
 	Consts    []string `json:"consts"`
@@ -110,19 +114,20 @@ type Obs struct {
 }
 
 type world struct {
-	dir    string
-	p      *parser.Parser
-	base   *runtime.VM
-	temps  []*runtime.TempVM // nil = discarded
-	tp     []*parser.Parser  // parser bound to temp t (nil until prepared)
-	c      *Case
-	cpfile map[string]int
-	tpl    string            // directory of the template files of route "parsefile"
-	all    []*runtime.TempVM // every TempVM a request ever ran on
-	hot    *ohttp.HotHandler
-	hotCtx data.Context
-	nfn    int          // counter for the helper functions of route "infunc"
-	thrown data.Control // last control handed to VM.ThrowControl (Program.GetValue reports throws there)
+	dir     string
+	p       *parser.Parser
+	base    *runtime.VM
+	temps   []*runtime.TempVM // nil = discarded
+	tp      []*parser.Parser  // parser bound to temp t (nil until prepared)
+	c       *Case
+	cpfile  map[string]int
+	tplRoot string
+	tpl     string            // directory of the template files of route "parsefile"
+	all     []*runtime.TempVM // every TempVM a request ever ran on
+	hot     *ohttp.HotHandler
+	hotCtx  data.Context
+	nfn     int          // counter for the helper functions of route "infunc"
+	thrown  data.Control // last control handed to VM.ThrowControl (Program.GetValue reports throws there)
 }
 
 func srcID(w *world, from data.From) int {
@@ -344,16 +349,12 @@ func (w *world) doOp(o Op) (st Step) {
 			// the template-rendering path ($w->view): VM.ParseFile / TempVM.ParseFile on a file that declares something
 			decl := declSrc(o.Kind, o.Name, o.File)
 			// one template directory per history: the same file id is the same path (same-file re-declaration)
-			if w.tpl == "" {
-				tdir, err := os.MkdirTemp("", "c12tpl-")
-				if err != nil {
-					st.R = 2
-					return
-				}
-				w.tpl, _ = filepath.EvalSymlinks(tdir)
+			if _, ok := w.tplDir(); !ok {
+				st.R = 2
+				return
 			}
-			path := filepath.Join(w.tpl, file)
-			os.WriteFile(path, []byte("<?php\n"+decl+"\n"), 0o644)
+			path := w.filePath(file)
+			os.WriteFile(filepath.Join(w.tpl, file), []byte("<?php\n"+decl+"\n"), 0o644)
 			w.thrown = nil
 			if _, acl := v.ParseFile(path, data.NewObjectValue()); acl != nil {
 				st.R = 1
@@ -374,16 +375,12 @@ func (w *world) doOp(o Op) (st Step) {
 			case "eval":
 				src = "eval(" + strconv.Quote(decl) + ");"
 			case "include", "require_once":
-				if w.tpl == "" {
-					tdir, err := os.MkdirTemp("", "c12tpl-")
-					if err != nil {
-						st.R = 2
-						return
-					}
-					w.tpl, _ = filepath.EvalSymlinks(tdir)
+				if _, ok := w.tplDir(); !ok {
+					st.R = 2
+					return
 				}
-				path := filepath.Join(w.tpl, file)
-				os.WriteFile(path, []byte("<?php\n"+decl+"\n"), 0o644)
+				path := w.filePath(file)
+				os.WriteFile(filepath.Join(w.tpl, file), []byte("<?php\n"+decl+"\n"), 0o644)
 				file = "script.zy"
 				src = o.Route + " " + strconv.Quote(path) + ";"
 			case "infunc":
@@ -620,13 +617,38 @@ func (w *world) doOp(o Op) (st Step) {
 	return
 }
 
+// tplDir: the directory of the files of routes parsefile / include / require_once of this history: a fresh temporary
+// directory + the history's path shape ("vendor", "vendor/acme/lib/src", "src", "My.Dir/UPPER" ...)
+func (w *world) tplDir() (string, bool) {
+	if w.tpl == "" {
+		tdir, err := os.MkdirTemp("", "c12tpl-")
+		if err != nil {
+			return "", false
+		}
+		w.tplRoot, _ = filepath.EvalSymlinks(tdir)
+		w.tpl = filepath.Join(w.tplRoot, filepath.FromSlash(strings.TrimPrefix(w.c.PathShape, "dots:")))
+		os.MkdirAll(w.tpl, 0o755)
+	}
+	return w.tpl, true
+}
+
+// filePath: the path string handed to include / ParseFile; shape "dots:<dir>" spells it with a ../ segment
+func (w *world) filePath(file string) string {
+	if strings.HasPrefix(w.c.PathShape, "dots:") {
+		return w.tpl + "/../" + filepath.Base(w.tpl) + "/" + file
+	}
+	return filepath.Join(w.tpl, file)
+}
+
 // autoload directories are created once per distinct file set and reused (they are read-only)
 var cpDirs = map[string]string{}
 var cpFiles = map[string]map[string]int{}
 
-func cpDir(cps []CP) (string, map[string]int, error) {
+var cpRoots []string
+
+func cpDir(cps []CP, shape string) (string, map[string]int, error) {
 	kb, _ := json.Marshal(cps)
-	key := string(kb)
+	key := string(kb) + "|" + shape
 	if d, ok := cpDirs[key]; ok {
 		return d, cpFiles[key], nil
 	}
@@ -635,6 +657,10 @@ func cpDir(cps []CP) (string, map[string]int, error) {
 		return "", nil, err
 	}
 	dir, _ = filepath.EvalSymlinks(dir)
+	cpRoots = append(cpRoots, dir)
+	// the class-path directory of namespace App has the history's path shape too
+	dir = filepath.Join(dir, filepath.FromSlash(strings.TrimPrefix(shape, "dots:")))
+	os.MkdirAll(dir, 0o755)
 	files := map[string]int{}
 	for i, cp := range cps {
 		var body string
@@ -842,14 +868,14 @@ func runCase(c *Case) (obs Obs) {
 			obs.Err = fmt.Sprint(r)
 		}
 	}()
-	dir, cpfile, err := cpDir(c.CP)
+	dir, cpfile, err := cpDir(c.CP, c.PathShape)
 	if err != nil {
 		return Obs{Err: err.Error()}
 	}
 	w := &world{dir: dir, c: c, cpfile: cpfile}
 	defer func() {
-		if w.tpl != "" {
-			os.RemoveAll(w.tpl)
+		if w.tplRoot != "" {
+			os.RemoveAll(w.tplRoot)
 		}
 	}()
 	w.p = parser.NewParser()
@@ -937,7 +963,7 @@ func main() {
 		o := runCase(&c)
 		out.Encode(o)
 	})
-	for _, d := range cpDirs {
+	for _, d := range cpRoots {
 		os.RemoveAll(d)
 	}
 }
